@@ -8,20 +8,21 @@ from vlib.core import Infra, ndjson_text
 INTERNAL = {"RP_pick", "CR_done", "UP_next"}
 WNAMES = ['W_LockContention', 'W_KilledAfterAck', 'W_KilledAfterMarker', 'W_KilledBetweenCreateAndWrite', 'W_4xxThenRerun', 'W_5xxThenRerun',
           'W_StaleReadyList', 'W_ReadUnwritten', 'W_BothCreate', 'W_ExclLost', 'W_StatSeesUploaded', 'W_DeletedUnderParse', 'W_LocalExists']
-C07_CLAUSES = {'OneLocalReport', 'DeleteOnlyAfterReport', 'ReportStable', 'Untouched'}
-C08_CLAUSES = {'OneBodyPerWeek', 'NoResendAfterRecorded', 'MarkerOnlyAfterAck'}
-SAFETY = ['OneLocalReport', 'OneBodyPerWeek', 'NoResendAfterRecorded', 'MarkerOnlyAfterAck', 'AtMostOneAck']
+C07_CLAUSES = {'OneLocalReport', 'DeleteOnlyAfterReport', 'ReportStable', 'Untouched', 'ReadyMatchesLocal'}
+C08_CLAUSES = {'OneBodyPerWeek', 'NoResendAfterRecorded', 'MarkerOnlyAfterAck', 'ReplyHandled'}
+SAFETY = ['ReadyMatchesLocal', 'OneLocalReport', 'OneBodyPerWeek', 'NoResendAfterRecorded', 'MarkerOnlyAfterAck', 'AtMostOneAck']
 ACTIONP = ['DeleteOnlyAfterReport', 'ReportStable', 'ServerErrorKeeps', 'ClientErrorDiscards']
 
 
-def fam(name, uploaders, files, weekof, maxruns, replies=('200', '4xx', '5xx', 'none'), kill=True):
-    return dict(name=name, uploaders=uploaders, files=files, weekof=weekof, weeks=sorted(set(weekof)), maxruns=maxruns, replies=list(replies), kill=kill)
+def fam(name, uploaders, files, weekof, maxruns, replies=('200', '4xx', '5xx', 'none'), kill=True, late=()):
+    return dict(late=list(late), name=name, uploaders=uploaders, files=files, weekof=weekof, weeks=sorted(set(weekof)), maxruns=maxruns, replies=list(replies), kill=kill)
 
 
 def families():
     small = [
         fam('two1w', ['u1', 'u2'], [1, 2], [1, 1], 2),
         fam('one2w', ['u1'], [1, 2], [1, 2], 2),
+        fam('late1w', ['u1'], [1, 2], [1, 1], 2, late=[2]),
     ]
     big = [
         fam('two2w', ['u1', 'u2'], [1, 2, 3], [1, 1, 2], 1),
@@ -41,8 +42,8 @@ MCWeekOf == (%s)
 
 def mc_cfg(f, spec='Spec', invariants=(), props=(), view=True, deadlock=False, kill=None, replies=None, maxruns=None):
     kill = f['kill'] if kill is None else kill
-    s = 'SPECIFICATION %s\nCONSTANTS\n Uploaders = {%s}\n Files = {%s}\n WeekOfFile <- MCWeekOf\n Weeks = {%s}\n MaxRuns = %d\n Replies = {%s}\n AllowKill = %s\n' % (
-        spec, ', '.join('"%s"' % u for u in f['uploaders']), ', '.join(str(x) for x in f['files']), ', '.join(str(w) for w in f['weeks']),
+    s = 'SPECIFICATION %s\nCONSTANTS\n Uploaders = {%s}\n Files = {%s}\n LateFiles = {%s}\n WeekOfFile <- MCWeekOf\n Weeks = {%s}\n MaxRuns = %d\n Replies = {%s}\n AllowKill = %s\n' % (
+        spec, ', '.join('"%s"' % u for u in f['uploaders']), ', '.join(str(x) for x in f['files']), ', '.join(str(x) for x in f['late']), ', '.join(str(w) for w in f['weeks']),
         maxruns or f['maxruns'], ', '.join('"%s"' % r for r in (replies or f['replies'])), 'TRUE' if kill else 'FALSE')
     if invariants:
         s += 'INVARIANTS ' + ' '.join(invariants) + '\n'
@@ -65,6 +66,10 @@ def schedule_of(states):
         killed = [u for u in b['alive'] if a['alive'][u] and not b['alive'][u]]
         if killed:
             sched.append('kill:' + killed[0])
+            continue
+        arr = [x for x in b['arrived'] if x not in a['arrived']]
+        if arr:
+            sched.append('arrive:%d' % arr[0])
             continue
         if pending(a):
             continue
@@ -96,7 +101,7 @@ def run(ctx, prop):
 
     def add_run(f, sched, replies, finish, why):
         rid = len(runs) + 1
-        runs.append(dict(id=rid, family=f['name'], uploaders=f['uploaders'], files=f['files'], weekOf=f['weekof'], weeks=f['weeks'], maxRuns=f['maxruns'],
+        runs.append(dict(id=rid, family=f['name'], uploaders=f['uploaders'], files=f['files'], weekOf=f['weekof'], weeks=f['weeks'], maxRuns=f['maxruns'], late=f['late'],
                          schedule=sched, replies=replies, finish=finish, seed=rng.randrange(1 << 30), extras=False))
         runfam[rid] = (f, why)
 
@@ -151,6 +156,9 @@ def run(ctx, prop):
         add_run(f, [], [], 'rr', 'rr')
         add_run(f, [], ['5xx', '200'], 'stick', 'seq')
         add_run(f, [], ['4xx'], 'stick', 'seq4xx')
+        if f['late']:
+            for rep in (['4xx', '200'], ['5xx', '200'], ['200'], ['none', '4xx']):
+                add_run(f, ['u1'] * 40 + ['arrive:%d' % f['late'][0]], rep, 'stick', 'late-after-' + rep[0])
     # the same with an active and an unreadable count file present (never touched; not part of the protocol model)
     nextra = 0
     for r0 in list(runs):
@@ -186,17 +194,33 @@ def run(ctx, prop):
     for k in sorted(obs):
         rcfg = runs[k - 1]
         filesof = {str(w): [x for x, ww in zip(rcfg['files'], rcfg['weekOf']) if ww == w] for w in rcfg['weeks']}
+        early = {str(w): [x for x, ww in zip(rcfg['files'], rcfg['weekOf']) if ww == w and x not in rcfg.get('late', [])] for w in rcfg['weeks']}
         killed = False
         for o in obs[k]:
             if o['t'] == 'kill':
                 killed = True
-            lines.append({'run': k, 'i': o['i'], 'count': o['count'], 'ready': o['ready'], 'localr': o['localr'], 'uploaded': o['uploaded'],
-                          'acks': o['acks'], 'posts': [{'w': q['w'], 'reply': q['reply'], 'after': q['after']} for q in o['posts']],
-                          'untouched': o['untouched'], 'quiet': o['quiet'], 'nokill': not killed, 'filesof': filesof})
-    chunk = 20000
-    for i in range(0, len(lines), chunk):
-        part = lines[i:i + chunk]
-        r = ctx.tlc('UploaderObs', files={'c08obs.ndjson': ndjson_text(part)}, workers=1, label='UploaderObs[%d]' % (i // chunk), count=False, timeout=1500)
+            lines.append({'run': k, 'i': o['i'], 't': o['t'], 'lock': o['lock'], 'count': o['count'], 'ready': o['ready'], 'localr': o['localr'], 'uploaded': o['uploaded'],
+                          'acks': o['acks'], 'posts': [{'w': q['w'], 'reply': q['reply'], 'after': q['after'], 'by': q['by']} for q in o['posts']],
+                          'untouched': o['untouched'], 'quiet': o['quiet'], 'nokill': not killed, 'filesof': filesof, 'early': early})
+    # chunks end at run boundaries; every line knows the index of its run's first line
+    chunks, cur = [], []
+    for k in sorted(obs):
+        mine_lines = [x for x in lines if x['run'] == k] if False else None
+    byrun = {}
+    for x in lines:
+        byrun.setdefault(x['run'], []).append(x)
+    for k in sorted(byrun):
+        if len(cur) + len(byrun[k]) > 20000 and cur:
+            chunks.append(cur)
+            cur = []
+        first = len(cur) + 1
+        for x in byrun[k]:
+            x['first'] = first
+            cur.append(x)
+    if cur:
+        chunks.append(cur)
+    for i, part in enumerate(chunks):
+        r = ctx.tlc('UploaderObs', files={'c08obs.ndjson': ndjson_text(part)}, workers=1, label='UploaderObs[%d]' % i, count=False, timeout=1500)
         j = r.out.find('"C08BAD"')
         if j < 0:
             raise Infra('UploaderObs: no verdict\n' + r.out[-2000:])
@@ -235,6 +259,8 @@ def run(ctx, prop):
                     x = {x: o[x] for x in ('run', 'i', 't', 'count', 'ready', 'localr', 'uploaded', 'lock', 'acks', 'posts')}
                     if o['t'] == 'kill':
                         x['victim'] = o['victim']
+                    if o['t'] == 'arrive':
+                        x['file'] = o['file']
                     tl.append(x)
             cfgt = mc_cfg(f, spec='TSpec', view=False, deadlock=False, kill=True) + 'CONSTRAINT HighWater\nPOSTCONDITION Accepted\n'
             r = ctx.tlc('MCUploaderTrace', files={'MCUploaderTrace.tla': mc_module(f, base='UploaderTrace', name='MCUploaderTrace'),
